@@ -32,7 +32,11 @@ META = {
             "facts differ from the reference outcome. The enumeration also contains programs with a misplaced finish-only "
             "statement (emit/create/delete/finish-function call outside finish, inline or inside a pure function): the spec shows "
             "they would break the property if accepted, the check confirms the compiler rejects them and, should one be accepted, "
-            "runs it under the same predicate.",
+            "runs it under the same predicate. The same is done for finish statements whose field value is an expression of each "
+            "ExprKind that check_finish_expression must refuse (user-function call that can panic, builtin call, todo(), if/match/"
+            "block expressions, or-coalescing, count_up_to, boolean operators, is) placed behind an earlier write of the same finish "
+            "block / finish function; each such program has a control twin with the expression hoisted into a let, which must "
+            "compile and run to the spec's outcome.",
     "note": "Bounds: quick — every policy block of <= 3 statements (nested ones counted), nesting <= 2, 5 finish bodies, 6 "
             "recall blocks, 3 arm bodies for match and else-if (19 114 programs, each with the run-time values of its conditions, "
             "plus 88 with a misplaced statement); thorough — additionally every flat block of <= 4 statements incl. debug_assert "
@@ -121,6 +125,14 @@ def run(ctx):
     stray = [x for x in res if x["_in"].get("stray")]
     stray_rejected = sum(1 for x in stray if x.get("stray_rejected"))
     rejected = sum(1 for x in res if x.get("rejected") and not x.get("stray_rejected"))
+    controls = collections.Counter(x.get("control") for x in res if x.get("control"))
+    if controls["rejected"]:
+        raise verif.ToolError("%d control programs (finish-field expression hoisted into a let) were rejected by the "
+                              "compiler: the rendering of that expression kind is not valid policy text, so its "
+                              "rejection inside finish proves nothing" % controls["rejected"])
+    fx = [x for x in stray if any(k in json.dumps(x["_in"]) for k in ('"emitx"', '"createx"', '"ffx"'))]
+    if not fx or not controls["ok"]:
+        raise verif.ToolError("vacuous enumeration: no finish-field expression programs / controls")
     if rejected * 50 > len(cases):
         raise verif.ToolError("%d of %d generated programs were rejected by the real compiler" % (rejected, len(cases)))
     ctx.absorb(res)
@@ -166,6 +178,8 @@ def run(ctx):
         "misplaced_statement_programs": len(stray),
         "misplaced_rejected_by_compiler": stray_rejected,
         "misplaced_accepted_and_run": len(stray) - stray_rejected,
+        "finish_field_expression_programs": len(fx),
+        "finish_field_expression_controls": dict(controls),
         "disagreements_checked": ran,
         "states": states,
         "random_derivations": nsim,
